@@ -76,6 +76,11 @@ pub fn corpus() -> Vec<(String, Box<dyn Fn(&dyn QueryBuilder) -> (String, Values
                     OnConflict::column(a("a")).target_cond_where(Cond::all().add(Expr::col(a("a")).gt(11))).value(a("b"), 12).action_cond_where(Cond::all().add(Expr::col(a("b")).lt(13))).to_owned()].into_iter().enumerate() {
         add!(format!("upsert filters#{i} expect-pg=[9,10,11,12,13] expect-my=[9,10,12]"), Query::insert().into_table(a("t")).columns([a("a"), a("b")]).values_panic([9.into(), 10.into()]).on_conflict(oc).to_owned());
     }
+    // window frame offsets are bound values: PARTITION BY value, ORDER BY value, then the two offsets, then the rest
+    add!("window frame expect-pg=[22,2,3,23] expect-my=[22,2,3,23]", {
+        let mut w = WindowStatement::partition_by(a("g"));
+        w.order_by_expr(Expr::col(a("x")).add(22).into(), Order::Asc).frame_between(FrameType::Rows, Frame::Preceding(2), Frame::Following(3));
+        let mut s = Query::select(); s.expr_window_as(Expr::col(a("x")).sum(), w, a("s")).from(a("t")).and_where(Expr::col(a("c")).eq(23)); s });
     add!("with", base(13).with(Query::with().cte(CommonTableExpression::new().query(base(10)).table_name(a("w")).to_owned()).to_owned()));
     v
 }
@@ -97,8 +102,9 @@ pub fn check_all(filter: Option<&str>) -> Vec<Witness> {
             // clause order, where the corpus entry states it: `expect-pg=[..]` (Postgres / SQLite) / `expect-my=[..]`
             let key = if name == "mysql" { "expect-my=[" } else { "expect-pg=[" };
             if let Some(p) = label.find(key) {
-                let want: Vec<Value> = label[p + key.len()..].split(']').next().unwrap_or("").split(',').filter_map(|x| x.trim().parse::<i32>().ok()).map(Value::from).collect();
-                if want != vals.0 { w("C01", format!("values {:?}", vals.0), &format!("values in clause order {want:?}")); continue; }
+                let want: Vec<i64> = label[p + key.len()..].split(']').next().unwrap_or("").split(',').filter_map(|x| x.trim().parse::<i64>().ok()).collect();
+                let got: Vec<i64> = vals.0.iter().map(|v| match v { Value::Int(Some(i)) => *i as i64, Value::Unsigned(Some(u)) => *u as i64, Value::BigInt(Some(i)) => *i, _ => -1 }).collect();
+                if want != got { w("C01", format!("values {:?}", vals.0), &format!("values in clause order {want:?}")); continue; }
             }
             // C02: substitute
             let t: Vec<char> = sql.chars().collect();
